@@ -91,7 +91,17 @@ def build_harness(race=False):
     return out
 
 
-def run_drive(binary, args, stdin=None, timeout=900, env=None):
+PANIC_MARKS = ("panic:", "fatal error:", "DATA RACE", "runtime error", "SIGSEGV", "unexpected signal", "[signal ")
+
+
+def is_panic(text):
+    """The text a dead worker left behind shows that the Go runtime ended the process (panic, fatal error, race report)."""
+    return any(m in text for m in PANIC_MARKS)
+
+
+def run_drive(binary, args, stdin=None, timeout=900, env=None, killed_ok=False):
+    """Runs the harness driver.  A worker that the supervisor had to kill (no result within its time limit) or that died
+    without a panic says nothing about the library: exit 2 -- unless the caller (killed_ok) deals with such rows itself."""
     e = dict(os.environ)
     if env:
         e.update(env)
@@ -99,6 +109,15 @@ def run_drive(binary, args, stdin=None, timeout=900, env=None):
         p = subprocess.run([binary] + args, input=stdin, capture_output=True, text=True, timeout=timeout, env=e)
     except subprocess.TimeoutExpired:
         raise Infra("driver timed out: %s" % " ".join(args))
+    if not killed_ok:
+        for line in p.stdout.splitlines():
+            if '"crash"' in line:
+                try:
+                    r = json.loads(line)
+                except ValueError:
+                    continue
+                if isinstance(r, dict) and "crash" in r and not is_panic(r["crash"]):
+                    raise Infra("a driver worker was killed or died without a panic (%s %s): %s" % (" ".join(args[:2]), r.get("id"), r["crash"][-400:]))
     return p
 
 
